@@ -151,13 +151,30 @@ TOOLS = {"st_replay": "state_tree", "ffi_replay": "ffi_serde", "parser_replay": 
 
 
 
+def _searchers(cfg):
+    rp = cfg.get("replay")
+    names = rp if isinstance(rp, list) else ([rp] if rp else [])
+    return [n for n in names if n in SEARCHERS]
+
+
+def _run_searchers(cfg, here, out):
+    """try each configured searcher in order; first concrete failing input wins"""
+    notes = []
+    for n in _searchers(cfg):
+        found, note = SEARCHERS[n](here, out)
+        if found:
+            return found, note
+        notes.append(f"{n}: {note}")
+    return None, "; ".join(notes)
+
+
 def make_violation(prop, cfg, r, f, ob, here, out):
     payload = {"property": prop, "unit": r.unit, "obligation": ob, "function": f["fn"], "kind": f["kind"],
                "clause": f["clause"], "verifier": "verus", "verifier_output": f["raw"],
                "cut_sha256": {c.name: c.sha for c in r.cuts if c.name == f["fn"]}}
     found, note = (None, "no replay harness for this unit")
-    if cfg.get("replay") in SEARCHERS and cfg.get("replay_units", [r.unit]).count(r.unit):
-        found, note = SEARCHERS[cfg["replay"]](here, out)
+    if _searchers(cfg) and cfg.get("replay_units", [r.unit]).count(r.unit):
+        found, note = _run_searchers(cfg, here, out)
     if found:
         payload["failing_input"] = found
         path = _write(prop, out, payload)
@@ -170,9 +187,9 @@ def make_violation(prop, cfg, r, f, ob, here, out):
 def search(prop, cfg, r, here, out, why=""):
     """proof annotations lost (exit 2 territory): only a concrete failing input of the real code
     turns this into a violation"""
-    if cfg.get("replay") not in SEARCHERS or not cfg.get("replay_units", [r.unit]).count(r.unit):
+    if not _searchers(cfg) or not cfg.get("replay_units", [r.unit]).count(r.unit):
         return None
-    found, note = SEARCHERS[cfg["replay"]](here, out)
+    found, note = _run_searchers(cfg, here, out)
     if not found:
         return None
     payload = {"property": prop, "unit": r.unit,
